@@ -119,7 +119,7 @@ Definition help_size (s : str) : Z :=
 (* exception classes the except clauses of cli.py distinguish (everything else is XOther:
    AttributeError, TypeError, OSError, EOFError, struct.error, InternalError, zlib.error ...).
    CrcError carries whether its filename argument (args[2]) is a member name or None
-   (py7zr.py l.1509: folder-level digest mismatch raises CrcError(crc, digest, None)). *)
+   (Worker.decompress: a folder-level digest mismatch raises CrcError(crc, digest, None)). *)
 Inductive exc := XBad7z | XPassword | XUnsupported | XDecompression | XLzma | XCrc (named : bool)
                | XKeyError | XValueError | XOther.
 
@@ -146,7 +146,7 @@ Definition status_of (r : cli_result) : option Z :=
 Record lib := { l_is7z : bool; l_getpass_warn : bool; l_open : option exc; l_info : option exc;
                 l_work : option exc }.
 
-(* SevenZipFile.testzip (py7zr.py l.1195-1207): except CrcError as crce: return crce.args[2] *)
+(* SevenZipFile.testzip (py7zr.py): except CrcError as crce: return crce.args[2] *)
 Inductive tz := TzNone | TzName | TzRaise (e : exc).
 Definition testzip (work : option exc) : tz :=
   match work with
